@@ -86,7 +86,9 @@ def _fact_checks(H, rec, c, label, make, D, kap, cfgname, cfg0, role, tier):
     lin32 = bool(cfg.get("linalg_f32"))
     e = H.eps_of(torch.float32 if lin32 else dt)
     tau = e * (400.0 + 40.0 * N)  # backward-stable factorizations: no kappa
-    tau_l = (3e-5 if dt == f64 else 3e-3)  # Lanczos: tridiagonal jitter 1e-6 relative + finite orthogonality
+    # Lanczos: tridiagonal jitter 1e-6 relative + finite orthogonality; float32 accuracy also depends on how close the random
+    # start vector is to an invariant subspace of some batch element (eps/beta amplification), hence the wide float32 margin
+    tau_l = (3e-5 if dt == f64 else 2e-2)
     gap = min_rel_gap(D)
     distinct = gap > 1e-3
     evs = torch.linalg.eigvalsh(Dm)
@@ -437,7 +439,7 @@ RTC_META = {
                    "the algorithm that really ran (verbose_linalg log) selects exact / Lanczos-compression / pivoted-Cholesky semantics.",
     "assumptions": [
         "direct factorizations: relative Frobenius residual <= eps*(400+40N) (no kappa); inverse roots: ||A R R^T - I|| <= eps*(400+40N+40kappa)",
-        "Lanczos roots/diagonalizations: R R^T equals the orthogonal compression of A onto range(R) (inverse: its inverse there) up to 3e-5 (float64) / 3e-3 (float32) "
+        "Lanczos roots/diagonalizations: R R^T equals the orthogonal compression of A onto range(R) (inverse: its inverse there) up to 3e-5 (float64) / 2e-2 (float32; start-vector sensitivity) "
         "(documented tridiagonal jitter 1e-6); equal to A / A^-1 itself only when the rank bound >= N and the relative eigenvalue gap exceeds 1e-3",
         "pivoted Cholesky root: PSD residual, at most min(rank bound, N) columns, as many vanishing residual directions as columns, relative trace residual <= 1e-3 when the bound reaches N",
         "eigenvalues are compared as multisets (the documentation says they are not sorted)",
